@@ -484,7 +484,7 @@ theorem map_toNat_ofNat : ∀ (s : List Nat), (∀ y ∈ s, y.isValidChar) → (
 -- characters ----------------------------------------------------------------------------------------------------
 
 section numbers
-open JinjaV.Spec.PyLit (G Derives digitValue digitsValueFrom digitsValue integerValue isHexC isDigitC star_cons_split)
+open JinjaV.Spec.PyLit (G Derives digitValue digitsValueFrom digitsValue integerValue isHexC isDigitC star_cons_split floatDecimal isExpMark countDigits expValue)
 
 theorem cle (a b : Char) : a ≤ b ↔ a.toNat ≤ b.toNat := by
   simp only [Char.le_def, UInt32.le_iff_toNat_le]; exact Iff.rfl
@@ -978,6 +978,342 @@ theorem matchFloat_derives (prev : Option Char) (s m r : Str) (h : matchFloat pr
           cases h
           exact .altR (Derives.seq (.altL hipd) hxd)
         · cases h
+
+-- floats: the modelled literal_eval against the reference decimal ------------------------------------------------
+
+/-- a non-empty digit run: a digit, then digits and underscores -/
+def IsRun (d : Str) : Prop := ∃ c t, d = c :: t ∧ isDigit c = true ∧ ∀ x ∈ t, x = '_' ∨ isDigit x = true
+
+theorem digitRunF_chars : ∀ (n : Nat) (s : Str), ∀ x ∈ (digitRunF n s).1, x = '_' ∨ isDigit x = true
+  | 0, s => by simp [digitRunF]
+  | n + 1, s => by
+    have hall : ∀ x ∈ s.takeWhile isDigit, isDigit x = true := takeWhile_all isDigit s
+    simp only [digitRunF]
+    split
+    · simp
+    · split
+      · rename_i r2 _
+        split
+        · exact fun x hx => Or.inr (hall x hx)
+        · intro x hx
+          simp only [List.mem_append, List.mem_cons] at hx
+          rcases hx with hx | rfl | hx
+          · exact Or.inr (hall x hx)
+          · exact Or.inl rfl
+          · exact digitRunF_chars n r2 x hx
+      · exact fun x hx => Or.inr (hall x hx)
+
+theorem digitRun_isRun (s : Str) (h : (digitRun s).1.isEmpty = false) : IsRun (digitRun s).1 := by
+  rcases digitRunF_shape s.length s with h0 | ⟨c, t, hd, hc, _⟩
+  · simp [digitRun, h0] at h
+  · refine ⟨c, t, by simpa [digitRun] using hd, hc, ?_⟩
+    intro x hx
+    have := digitRunF_chars s.length s x (by rw [hd]; simp [hx])
+    exact this
+
+theorem matchFrac_shape (s : Str) (f : Str × Str) (h : matchFrac s = some f) : ∃ fp, f.1 = '.' :: fp ∧ IsRun fp := by
+  unfold matchFrac at h
+  split at h
+  · rename_i r2
+    split at h
+    · cases h
+    · rename_i hne
+      cases h
+      exact ⟨_, rfl, digitRun_isRun r2 (by simpa using hne)⟩
+  · cases h
+
+theorem matchExpo_shape (s : Str) (x : Str × Str) (h : matchExpo s = some x) :
+    ∃ e sg xp, x.1 = e :: sg ++ xp ∧ isE e = true ∧ (sg = [] ∨ sg = ['+'] ∨ sg = ['-']) ∧ IsRun xp := by
+  unfold matchExpo at h
+  split at h
+  · rename_i e r2
+    split at h
+    · rename_i he
+      split at h
+      · cases h
+      · rename_i hne
+        cases h
+        refine ⟨e, (takeExpSign r2).1, _, rfl, he, ?_, digitRun_isRun _ (by simpa using hne)⟩
+        unfold takeExpSign
+        split <;> simp
+    · cases h
+  · cases h
+
+/-- the text the float scanner matches: integer digits, then a fraction and/or an exponent -/
+theorem matchFloat_shape (prev : Option Char) (s m r : Str) (h : matchFloat prev s = some (m, r)) :
+    ∃ ip, IsRun ip ∧
+      ((∃ fp e sg xp, m = ip ++ '.' :: fp ++ e :: sg ++ xp ∧ IsRun fp ∧ isE e = true ∧ (sg = [] ∨ sg = ['+'] ∨ sg = ['-']) ∧ IsRun xp) ∨
+       (∃ fp, m = ip ++ '.' :: fp ∧ IsRun fp) ∨
+       (∃ e sg xp, m = ip ++ e :: sg ++ xp ∧ isE e = true ∧ (sg = [] ∨ sg = ['+'] ∨ sg = ['-']) ∧ IsRun xp)) := by
+  unfold matchFloat at h
+  split at h
+  · cases h
+  · split at h
+    · cases h
+    · rename_i hip
+      refine ⟨(digitRun s).1, digitRun_isRun s (by simpa using hip), ?_⟩
+      split at h
+      · rename_i f hf
+        obtain ⟨fp, hfp, hfr⟩ := matchFrac_shape _ f hf
+        split at h
+        · rename_i x hx
+          obtain ⟨e, sg, xp, hxe, he, hsg, hxr⟩ := matchExpo_shape _ x hx
+          cases h
+          exact Or.inl ⟨fp, e, sg, xp, by rw [hfp, hxe]; simp, hfr, he, hsg, hxr⟩
+        · cases h
+          exact Or.inr (Or.inl ⟨fp, by rw [hfp], hfr⟩)
+      · split at h
+        · rename_i x hx
+          obtain ⟨e, sg, xp, hxe, he, hsg, hxr⟩ := matchExpo_shape _ x hx
+          cases h
+          exact Or.inr (Or.inr ⟨e, sg, xp, by rw [hxe]; simp, he, hsg, hxr⟩)
+        · cases h
+
+theorem span_stop (p : Char → Bool) : ∀ (a b : Str), (∀ x ∈ a, p x = true) → (∀ c t, b = c :: t → p c = false) →
+    (a ++ b).takeWhile p = a ∧ (a ++ b).dropWhile p = b
+  | [], b, _, hb => by
+    cases b with
+    | nil => simp
+    | cons c t => simp [hb c t rfl]
+  | x :: a, b, ha, hb => by
+    have hx := ha x (by simp)
+    have ih := span_stop p a b (fun y hy => ha y (by simp [hy])) hb
+    simp [hx, ih.1, ih.2]
+
+theorem isE_not_digit (e : Char) (h : isE e = true) : isDigit e = false ∧ e ≠ '_' ∧ e ≠ '.' := by
+  simp only [isE, Bool.or_eq_true, beq_iff_eq] at h
+  rcases h with rfl | rfl <;> decide
+
+theorem takeExpSign_sign (sg Xd : Str) (hsg : sg = [] ∨ sg = ['+'] ∨ sg = ['-'])
+    (hX : ∃ c t, Xd = c :: t ∧ isDigit c = true) : takeExpSign (sg ++ Xd) = (sg, Xd) := by
+  obtain ⟨c, t, rfl, hc⟩ := hX
+  rcases hsg with rfl | rfl | rfl
+  · have h1 : c ≠ '+' := by intro e; rw [e] at hc; exact absurd hc (by decide)
+    have h2 : c ≠ '-' := by intro e; rw [e] at hc; exact absurd hc (by decide)
+    simp only [List.nil_append]
+    unfold takeExpSign
+    split
+    · rename_i heq; cases heq; exact absurd rfl h1
+    · rename_i heq; cases heq; exact absurd rfl h2
+    · rfl
+  · rfl
+  · rfl
+
+/-- stripped parts: all digits -/
+def AllDigits (s : Str) : Prop := ∀ x ∈ s, isDigit x = true
+
+theorem floatLit_frac_exp (I Fd Xd sg : Str) (e : Char) (hI : AllDigits I) (hI0 : I ≠ []) (hF : AllDigits Fd)
+    (he : isE e = true) (hsg : sg = [] ∨ sg = ['+'] ∨ sg = ['-']) (hX : ∃ c t, Xd = c :: t ∧ isDigit c = true)
+    (x : Nat) (hx : digitsAcc 10 0 Xd = some x) :
+    floatLit (I ++ '.' :: (Fd ++ e :: (sg ++ Xd))) = mkDec I Fd (if sg == ['-'] then - (x : Int) else (x : Int)) := by
+  have h1 := span_stop isDigit I ('.' :: (Fd ++ e :: (sg ++ Xd))) hI (by intro c t h; cases h; decide)
+  have h2 := span_stop isDigit Fd (e :: (sg ++ Xd)) hF (by intro c t h; cases h; exact (isE_not_digit _ he).1)
+  have hIe : I.isEmpty = false := by cases I with | nil => exact absurd rfl hI0 | cons _ _ => rfl
+  have hXe : Xd.isEmpty = false := by obtain ⟨c, t, rfl, _⟩ := hX; rfl
+  simp only [floatLit, h1.1, h1.2, h2.1, h2.2, hIe, Bool.false_and, he, takeExpSign_sign sg Xd hsg hX, hXe, hx]
+  simp
+
+theorem floatLit_frac (I Fd : Str) (hI : AllDigits I) (hI0 : I ≠ []) (hF : AllDigits Fd) :
+    floatLit (I ++ '.' :: Fd) = mkDec I Fd 0 := by
+  have h1 := span_stop isDigit I ('.' :: Fd) hI (by intro c t h; cases h; decide)
+  have h2 := span_stop isDigit Fd [] hF (by intro c t h; cases h)
+  simp only [List.append_nil] at h2
+  have hIe : I.isEmpty = false := by cases I with | nil => exact absurd rfl hI0 | cons _ _ => rfl
+  simp only [floatLit, h1.1, h1.2, h2.1, h2.2, hIe, Bool.false_and]
+  simp
+
+theorem floatLit_exp (I Xd sg : Str) (e : Char) (hI : AllDigits I) (hI0 : I ≠ [])
+    (he : isE e = true) (hsg : sg = [] ∨ sg = ['+'] ∨ sg = ['-']) (hX : ∃ c t, Xd = c :: t ∧ isDigit c = true)
+    (x : Nat) (hx : digitsAcc 10 0 Xd = some x) :
+    floatLit (I ++ e :: (sg ++ Xd)) = mkDec I [] (if sg == ['-'] then - (x : Int) else (x : Int)) := by
+  have h1 := span_stop isDigit I (e :: (sg ++ Xd)) hI (by intro c t h; cases h; exact (isE_not_digit _ he).1)
+  have hIe : I.isEmpty = false := by cases I with | nil => exact absurd rfl hI0 | cons _ _ => rfl
+  have hXe : Xd.isEmpty = false := by obtain ⟨c, t, rfl, _⟩ := hX; rfl
+  have hts := takeExpSign_sign sg Xd hsg hX
+  have he' := he
+  simp only [isE, Bool.or_eq_true, beq_iff_eq] at he'
+  rcases he' with rfl | rfl <;>
+  · have hXne : Xd ≠ [] := by obtain ⟨c, t, rfl, _⟩ := hX; simp
+    simp only [floatLit, h1.1, h1.2, hIe, Bool.false_and]
+    simp [he, hts, hx, hXne]
+
+/-- digits and underscores only -/
+def RunChars (d : Str) : Prop := ∀ x ∈ d, x = '_' ∨ isDigit x = true
+
+theorem runchar_facts (x : Char) (h : x = '_' ∨ isDigit x = true) : isExpMark x = false ∧ x ≠ '.' ∧ x ≠ '+' ∧ x ≠ '-' := by
+  rcases h with rfl | h
+  · decide
+  · have := (isDigit_iff x).1 h
+    refine ⟨?_, ?_, ?_, ?_⟩
+    · simp only [isExpMark, Bool.or_eq_false_iff, beq_eq_false_iff_ne, ne_eq]
+      constructor <;> (intro e; rw [e] at this; revert this; decide)
+    all_goals (intro e; rw [e] at this; revert this; decide)
+
+theorem specExp (sg xp : Str) (hsg : sg = [] ∨ sg = ['+'] ∨ sg = ['-']) (hx : ∃ c t, xp = c :: t ∧ isDigit c = true) :
+    expValue (sg ++ xp) = (if sg == ['-'] then - (digitsValue 10 xp : Int) else (digitsValue 10 xp : Int)) := by
+  obtain ⟨c, t, rfl, hc⟩ := hx
+  have hf := runchar_facts c (Or.inr hc)
+  rcases hsg with rfl | rfl | rfl
+  · simp only [List.nil_append]
+    unfold expValue
+    split
+    · rename_i heq; cases heq; exact absurd rfl hf.2.2.2
+    · rename_i heq; cases heq; exact absurd rfl hf.2.2.1
+    · simp
+  · simp [expValue]
+  · simp [expValue]
+
+theorem floatDecimal_frac_exp (ip fp xp sg : Str) (e : Char) (hi : RunChars ip) (hf : RunChars fp)
+    (he : isE e = true) (hsg : sg = [] ∨ sg = ['+'] ∨ sg = ['-']) (hx : ∃ c t, xp = c :: t ∧ isDigit c = true) :
+    floatDecimal (ip ++ '.' :: (fp ++ e :: (sg ++ xp))) =
+      (digitsValue 10 (ip ++ fp),
+       (if sg == ['-'] then - (digitsValue 10 xp : Int) else (digitsValue 10 xp : Int)) - (countDigits fp : Int)) := by
+  have hassoc : ip ++ '.' :: (fp ++ e :: (sg ++ xp)) = (ip ++ '.' :: fp) ++ e :: (sg ++ xp) := by simp
+  have hm := span_stop (fun c => !isExpMark c) (ip ++ '.' :: fp) (e :: (sg ++ xp))
+    (by intro x hx'
+        simp only [List.mem_append, List.mem_cons] at hx'
+        rcases hx' with h | rfl | h
+        · simp [(runchar_facts x (hi x h)).1]
+        · decide
+        · simp [(runchar_facts x (hf x h)).1])
+    (by intro c t h; cases h; have : isExpMark e = true := he; simp [this])
+  have hd := span_stop (· != '.') ip ('.' :: fp)
+    (by intro x hx'; simpa using (runchar_facts x (hi x hx')).2.1)
+    (by intro c t h; cases h; decide)
+  simp only [floatDecimal, hassoc, hm.1, hm.2, hd.1, hd.2, List.drop_succ_cons, List.drop_zero, specExp sg xp hsg hx]
+
+theorem floatDecimal_frac (ip fp : Str) (hi : RunChars ip) (hf : RunChars fp) :
+    floatDecimal (ip ++ '.' :: fp) = (digitsValue 10 (ip ++ fp), (0 : Int) - (countDigits fp : Int)) := by
+  have hm := span_stop (fun c => !isExpMark c) (ip ++ '.' :: fp) []
+    (by intro x hx'
+        simp only [List.mem_append, List.mem_cons] at hx'
+        rcases hx' with h | rfl | h
+        · simp [(runchar_facts x (hi x h)).1]
+        · decide
+        · simp [(runchar_facts x (hf x h)).1])
+    (by intro c t h; cases h)
+  simp only [List.append_nil] at hm
+  have hd := span_stop (· != '.') ip ('.' :: fp)
+    (by intro x hx'; simpa using (runchar_facts x (hi x hx')).2.1)
+    (by intro c t h; cases h; decide)
+  simp only [floatDecimal, hm.1, hm.2, hd.1, hd.2, List.drop_succ_cons, List.drop_zero, List.drop_nil]
+  simp [expValue, digitsValue, digitsValueFrom]
+
+theorem floatDecimal_exp (ip xp sg : Str) (e : Char) (hi : RunChars ip)
+    (he : isE e = true) (hsg : sg = [] ∨ sg = ['+'] ∨ sg = ['-']) (hx : ∃ c t, xp = c :: t ∧ isDigit c = true) :
+    floatDecimal (ip ++ e :: (sg ++ xp)) =
+      (digitsValue 10 (ip ++ []),
+       (if sg == ['-'] then - (digitsValue 10 xp : Int) else (digitsValue 10 xp : Int)) - (countDigits [] : Int)) := by
+  have hm := span_stop (fun c => !isExpMark c) ip (e :: (sg ++ xp))
+    (by intro x hx'; simp [(runchar_facts x (hi x hx')).1])
+    (by intro c t h; cases h; have : isExpMark e = true := he; simp [this])
+  have hd := span_stop (· != '.') ip []
+    (by intro x hx'; simpa using (runchar_facts x (hi x hx')).2.1)
+    (by intro c t h; cases h)
+  simp only [List.append_nil] at hd
+  simp only [floatDecimal, hm.1, hm.2, hd.1, hd.2, List.drop_succ_cons, List.drop_zero, List.drop_nil, specExp sg xp hsg hx]
+
+theorem run_chars {d : Str} (h : IsRun d) : RunChars d := by
+  obtain ⟨c, t, rfl, hc, ht⟩ := h
+  intro x hx
+  simp only [List.mem_cons] at hx
+  rcases hx with rfl | hx
+  · exact Or.inr hc
+  · exact ht x hx
+
+theorem run_head {d : Str} (h : IsRun d) : ∃ c t, d = c :: t ∧ isDigit c = true := by
+  obtain ⟨c, t, rfl, hc, _⟩ := h; exact ⟨c, t, rfl, hc⟩
+
+theorem digit_ne_underscore {c : Char} (h : isDigit c = true) : c ≠ '_' := by
+  intro e; rw [e] at h; exact absurd h (by decide)
+
+theorem strip_runchars {d : Str} (h : RunChars d) :
+    AllDigits (stripUnderscores d) ∧ countDigits d = (stripUnderscores d).length ∧ ∀ x ∈ d, Good 10 x := by
+  refine ⟨?_, ?_, ?_⟩
+  · intro x hx
+    simp only [stripUnderscores, List.mem_filter, bne_iff_ne, ne_eq] at hx
+    rcases h x hx.1 with e | e
+    · exact absurd e hx.2
+    · exact e
+  · unfold countDigits stripUnderscores
+    congr 1
+    apply List.filter_congr
+    intro x hx
+    rcases h x hx with rfl | e
+    · decide
+    · have : isDigitC x = true := e
+      simp [this, digit_ne_underscore e]
+  · intro x hx
+    rcases h x hx with rfl | e
+    · exact Or.inl rfl
+    · exact good_isDigit x e
+
+theorem strip_run_head {d : Str} (h : IsRun d) : ∃ c t, stripUnderscores d = c :: t ∧ isDigit c = true := by
+  obtain ⟨c, t, rfl, hc, _⟩ := h
+  exact ⟨c, _, strip_cons_ne c t (digit_ne_underscore hc), hc⟩
+
+theorem strip_sign (sg xp : Str) (hsg : sg = [] ∨ sg = ['+'] ∨ sg = ['-']) :
+    stripUnderscores (sg ++ xp) = sg ++ stripUnderscores xp := by
+  rcases hsg with rfl | rfl | rfl <;> simp [stripUnderscores]
+
+theorem strip_append (a b : Str) : stripUnderscores (a ++ b) = stripUnderscores a ++ stripUnderscores b := by
+  simp [stripUnderscores]
+
+theorem mantissa_value (ip fp : Str) (hi : RunChars ip) (hf : RunChars fp) :
+    digitsAcc 10 0 (stripUnderscores ip ++ stripUnderscores fp) = some (digitsValue 10 (ip ++ fp)) := by
+  rw [← strip_append]
+  apply digitsAcc_strip 10 (ip ++ fp) 0
+  intro x hx
+  simp only [List.mem_append] at hx
+  rcases hx with hx | hx
+  · exact (strip_runchars hi).2.2 x hx
+  · exact (strip_runchars hf).2.2 x hx
+
+/-- the modelled `literal_eval` result on a text the float scanner matches is the reference decimal -/
+theorem matchFloat_value (prev : Option Char) (s m r : Str) (h : matchFloat prev s = some (m, r)) :
+    floatValue m = some ⟨(floatDecimal m).1, (floatDecimal m).2⟩ := by
+  obtain ⟨ip, hip, hcases⟩ := matchFloat_shape prev s m r h
+  have hic := run_chars hip
+  have hI := (strip_runchars hic).1
+  have hI0 : stripUnderscores ip ≠ [] := by obtain ⟨c, t, e, _⟩ := strip_run_head hip; rw [e]; simp
+  rcases hcases with ⟨fp, e, sg, xp, rfl, hfp, he, hsg, hxp⟩ | ⟨fp, rfl, hfp⟩ | ⟨e, sg, xp, rfl, he, hsg, hxp⟩
+  · have hfc := run_chars hfp
+    have hxc := run_chars hxp
+    have hen := (isE_not_digit e he).2.1
+    have hnorm : ip ++ '.' :: fp ++ e :: sg ++ xp = ip ++ '.' :: (fp ++ e :: (sg ++ xp)) := by simp
+    have hstrip : stripUnderscores (ip ++ '.' :: (fp ++ e :: (sg ++ xp))) =
+        stripUnderscores ip ++ '.' :: (stripUnderscores fp ++ e :: (sg ++ stripUnderscores xp)) := by
+      rw [strip_append, strip_cons_ne '.' _ (by decide), strip_append, strip_cons_ne e _ hen, strip_sign sg xp hsg]
+    have hxv := digitsAcc_strip 10 xp 0 (strip_runchars hxc).2.2
+    rw [hnorm]
+    unfold floatValue
+    rw [hstrip, floatLit_frac_exp _ _ _ sg e hI hI0 (strip_runchars hfc).1 he hsg (strip_run_head hxp) _ hxv,
+      floatDecimal_frac_exp ip fp xp sg e hic hfc he hsg (run_head hxp)]
+    simp only [mkDec, mantissa_value ip fp hic hfc, (strip_runchars hfc).2.1]
+    rfl
+  · have hfc := run_chars hfp
+    have hstrip : stripUnderscores (ip ++ '.' :: fp) = stripUnderscores ip ++ '.' :: stripUnderscores fp := by
+      rw [strip_append, strip_cons_ne '.' _ (by decide)]
+    unfold floatValue
+    rw [hstrip, floatLit_frac _ _ hI hI0 (strip_runchars hfc).1, floatDecimal_frac ip fp hic hfc]
+    simp only [mkDec, mantissa_value ip fp hic hfc, (strip_runchars hfc).2.1]
+  · have hxc := run_chars hxp
+    have hen := (isE_not_digit e he).2.1
+    have hnorm : ip ++ e :: sg ++ xp = ip ++ e :: (sg ++ xp) := by simp
+    have hstrip : stripUnderscores (ip ++ e :: (sg ++ xp)) = stripUnderscores ip ++ e :: (sg ++ stripUnderscores xp) := by
+      rw [strip_append, strip_cons_ne e _ hen, strip_sign sg xp hsg]
+    have hxv := digitsAcc_strip 10 xp 0 (strip_runchars hxc).2.2
+    have hnil : RunChars [] := by intro x hx; simp at hx
+    have hm := mantissa_value ip [] hic hnil
+    have hs0 : stripUnderscores ([] : Str) = [] := rfl
+    rw [hs0] at hm
+    rw [hnorm]
+    unfold floatValue
+    rw [hstrip, floatLit_exp _ _ sg e hI hI0 he hsg (strip_run_head hxp) _ hxv,
+      floatDecimal_exp ip xp sg e hic he hsg (run_head hxp)]
+    simp only [mkDec, hm]
+    simp [countDigits]
+    rfl
 
 end numbers
 
